@@ -29,3 +29,12 @@ CASES = [
     m("load_parcel returns the parcel itself", "C18-E", "quantarhei/core/parcel.py", "        return obj.content\n", "        return obj\n"),
     t("extension list reordered", D, "        if extension not in [\".dat\",\".txt\",\".npy\",\".npz\", \".mat\"]:", "        if extension not in [\".mat\",\".dat\",\".txt\",\".npy\",\".npz\"]:"),
 ]
+
+CASES += [
+    m("packed table always real", "C18-A", D,
+      "            data = numpy.zeros(shp,dtype=self.data.dtype)\n            data[:,1] = self.data",
+      "            data = numpy.zeros(shp,dtype=float)\n            data[:,1] = self.data"),
+    t("packed table type promoted over axis and data", D,
+      "            data = numpy.zeros(shp,dtype=self.data.dtype)\n            data[:,1] = self.data",
+      "            data = numpy.zeros(shp,dtype=numpy.result_type(axis.data, self.data))\n            data[:,1] = self.data"),
+]
